@@ -109,6 +109,14 @@ CLAIMS["C12"] = dict(
     technique="structural counting (linear forms in the path length), guard agreement, CFG must-pass",
     design="DESIGN.md section 4, C12")
 
+CLAIMS["C13"] = dict(
+    text="Writer/reader agreement of the transaction codec as ordered stream-operation sequences on the basic and BIP144 paths, presence "
+         "and predicate of the two rejections, txid/wtxid serialisation flags, exception containment and trailing-byte rejection for "
+         "malformed input, amount parsing parameters, and the compact-size ladder with canonical-form bounds. Bit-exact round trip and "
+         "field values are not decided.",
+    technique="stream-operation sequence extraction per structured path, writer<->reader mirroring, ladder agreement, exception escape",
+    design="DESIGN.md section 4, C13")
+
 NOT_YET = "check not built yet in this round (see DESIGN.md section 7 build order)"
 
 NA = {
